@@ -156,7 +156,7 @@ Qed.
 Theorem models_nth (default : list nat) (own : list (list nat)) (its : list item) (i : nat) (it : item) :
   nth_error its i = Some it ->
   nth_error (modify_models default own its) i
-  = Some (map Orig (if item_hm it then nth (item_id it) own [] else default)).
+  = Some (map Orig (base_model default own it)).
 Proof. intro H. unfold modify_models. rewrite nth_error_map, H. reflexivity. Qed.
 
 Theorem free_nth (free : list nat) (n : nat) (m : list nat) (i : nat) :
@@ -200,38 +200,26 @@ Section Sub.
       rewrite Nat.add_1_r in IH. exact IH.
   Qed.
 
-  Lemma spec_sum_answers {A1 X1 A2 X2} (ev1 : A1 -> X1 -> res) (ev2 : A2 -> X2 -> res) l1 x1 l2 x2 :
-    map (fun a => ev1 a x1) l1 = map (fun a => ev2 a x2) l2 -> spec_sum ev1 l1 x1 = spec_sum ev2 l2 x2.
+  Lemma serial_answers {A1 X1 A2 X2} (ev1 : A1 -> X1 -> res) (ev2 : A2 -> X2 -> res) x1 x2 : forall l1 l2,
+    map (fun a => ev1 a x1) l1 = map (fun a => ev2 a x2) l2 -> serial ev1 l1 x1 = serial ev2 l2 x2.
   Proof.
-    intro H. unfold spec_sum. rewrite <- (exc_vals ev1), <- (exc_vals ev2), <- (sum_vals ev1), <- (sum_vals ev2), H.
-    reflexivity.
+    induction l1 as [|a l1 IH]; intros l2 H; destruct l2 as [|b l2]; simpl in *; try discriminate; [reflexivity|].
+    inversion H as [[Ha Hl]]. rewrite Ha, (IH l2 Hl). reflexivity.
   Qed.
 
   (* the likelihood of an indexed collection (free parameters / own models) is the sum of each
-     analysis' likelihood on its own sub-instance *)
+     analysis' likelihood on its own sub-instance (the first raising analysis' exception otherwise) *)
   Theorem indexed_sum (its : list item) (w : S) (parts : list S) :
     length parts = length its ->
     serial (item_lik lik) (reindex_from 0 its) (w, parts)
     = spec_sum (fun (p : nat * S) (_ : unit) => lik (fst p) (snd p)) (combine (map item_id its) parts) tt.
   Proof.
-    intro L. rewrite serial_spec. apply spec_sum_answers.
+    intro L. rewrite <- serial_spec. apply serial_answers.
     exact (indexed_answers w its [] parts L).
   Qed.
 End Sub.
 
-(* ---------- child results and folders ---------- *)
-Theorem children_nth {M B} (models : list M) (analyses : list B) (i : nat) (m : M) (a : B) :
-  nth_error (children models analyses) i = Some (m, a) <-> nth_error models i = Some m /\ nth_error analyses i = Some a.
-Proof.
-  unfold children. revert analyses i. induction models as [|x models IH]; intros analyses i.
-  - simpl. destruct i; simpl; split; intro H; try discriminate; destruct H; discriminate.
-  - destruct analyses as [|y analyses]; simpl.
-    + destruct i; simpl; split; intro H; try discriminate; destruct H; discriminate.
-    + destruct i; simpl.
-      * split; intro H; [inversion H; auto|destruct H as [H1 H2]; inversion H1; inversion H2; reflexivity].
-      * apply IH.
-Qed.
-
+(* ---------- folders ---------- *)
 Lemma number_from_nth {B} (l : list B) : forall s i, nth_error (number_from s l) i = option_map (fun b => (s + i, b)) (nth_error l i).
 Proof.
   induction l as [|b l IH]; intros s i; destruct i; simpl; auto.
@@ -256,14 +244,21 @@ Proof.
   rewrite IH, number_from_app. reflexivity.
 Qed.
 
-(* repaired map: the pool uses the same folders as the serial path, for every core count *)
-Theorem folders_fixed {B} (c : cfg) (cores : nat) (l : list B) : fix_map c = true -> folders c cores l = folders_serial l.
+(* /repo as it stands: the pool uses the same folders as the serial path, for every core count *)
+Theorem folders_now {B} (cores : nat) (l : list B) : folders true cores l = folders_serial l.
 Proof.
-  intro F. unfold folders. destruct (1 <? cores) eqn:K; [|reflexivity].
-  apply Nat.ltb_lt in K. rewrite F, folders_procs_fixed, split_concat; [reflexivity|lia].
+  unfold folders. destruct (1 <? cores) eqn:K; [|reflexivity].
+  apply Nat.ltb_lt in K. rewrite folders_procs_fixed, split_concat; [reflexivity|lia].
 Qed.
 
-(* pinned map: right when every process holds a single analysis *)
+(* visualize through the pool inside a history: whatever pool exists (also one kept after n_cores
+   went back to 1), the folders written are folder i for analysis i, for the analyses that did not raise *)
+Theorem map_written_now {B X} (vis : B -> X -> res) (x : X) (cores : nat) (l : list B) : 1 <= cores ->
+  filter (fun p => negb (raises vis x (snd p))) (folders_procs true 0 0 (split_procs cores l))
+  = filter (fun p => negb (raises vis x (snd p))) (folders_serial l).
+Proof. intro H. rewrite folders_procs_fixed, split_concat by exact H. reflexivity. Qed.
+
+(* historical map: right when every process holds a single analysis *)
 Lemma ceil_div_self (n : nat) : 1 <= n -> ceil_div n n = 1.
 Proof.
   intro H. unfold ceil_div. symmetry. apply (Nat.div_unique (n + n - 1) n 1 (n - 1)); lia.
@@ -284,11 +279,147 @@ Proof.
   replace (pi + 1) with (S pi) by lia. apply IH.
 Qed.
 
-Theorem folders_partial {B} (c : cfg) (cores : nat) (l : list B) : length l <= cores -> folders c cores l = folders_serial l.
+Theorem folders_partial {B} (fm : bool) (cores : nat) (l : list B) : length l <= cores -> folders fm cores l = folders_serial l.
 Proof.
-  intro H. destruct (fix_map c) eqn:F; [apply folders_fixed; exact F|].
-  unfold folders. destruct (1 <? cores) eqn:K; [|reflexivity]. rewrite F.
+  intro H. destruct fm; [apply folders_now|].
+  unfold folders. destruct (1 <? cores) eqn:K; [|reflexivity].
   destruct l as [|b l]; [reflexivity|].
   unfold split_procs. rewrite Nat.min_l by exact H. rewrite ceil_div_self by (simpl; lia).
   rewrite singletons. apply folders_procs_singletons.
+Qed.
+
+(* ---------- a fit: position i = folder i = analysis i = child result i = model i ---------- *)
+Lemma reindex_ids (i : nat) (its : list item) : map item_id (reindex_from i its) = map item_id its.
+Proof. revert i. induction its as [|a its IH]; intro i; simpl; [reflexivity|]. rewrite IH. reflexivity. Qed.
+Lemma reindex_length (i : nat) (its : list item) : length (reindex_from i its) = length its.
+Proof. revert i. induction its; intro i; simpl; auto. Qed.
+
+(* modify_before_fit keeps the analyses in order *)
+Theorem rebuilt_ids (c : cfg) (k : ckind) (its : list item) : map item_id (rebuilt c k its) = map item_id its.
+Proof. destruct k; simpl; auto using reindex_ids. Qed.
+
+Lemma nth_error_combine {B C} (a : list B) (b : list C) (i : nat) (x : B) (y : C) :
+  nth_error (combine a b) i = Some (x, y) <-> nth_error a i = Some x /\ nth_error b i = Some y.
+Proof.
+  revert b i. induction a as [|p a IH]; intros b i.
+  - simpl. destruct i; simpl; split; intro H; try discriminate; destruct H; discriminate.
+  - destruct b as [|q b]; simpl.
+    + destruct i; simpl; split; intro H; try discriminate; destruct H; discriminate.
+    + destruct i; simpl.
+      * split; intro H; [inversion H; auto|destruct H as [H1 H2]; inversion H1; inversion H2; reflexivity].
+      * apply IH.
+Qed.
+
+Lemma seq_nth_error (n i : nat) : i < n -> nth_error (seq 0 n) i = Some i.
+Proof. intro H. rewrite (nth_error_nth' _ 0); [|rewrite seq_length; exact H]. rewrite seq_nth; auto. Qed.
+
+(* make_result: child i is made by analysis i from model i (plain sums: from the one model) *)
+Theorem children_nth (k : ckind) (n : nat) (its : list item) (i : nat) (it : item) :
+  n = length its -> nth_error its i = Some it ->
+  nth_error (children k n its) i = Some (match k with KPlain => None | _ => Some i end, it).
+Proof.
+  intros N H. assert (I : i < length its) by (apply nth_error_Some; congruence).
+  assert (C : nth_error (map (fun p => (Some (fst p), snd p)) (combine (seq 0 n) its)) i = Some (Some i, it)).
+  { rewrite nth_error_map. replace (nth_error (combine (seq 0 n) its) i) with (Some (i, it)); [reflexivity|].
+    symmetry. apply nth_error_combine. split; [apply seq_nth_error; lia|exact H]. }
+  destruct k; simpl; [rewrite nth_error_map, H; reflexivity|exact C|exact C].
+Qed.
+
+(* save_results: folder i, analysis i and child result i meet *)
+Theorem saved_nth (k : ckind) (n : nat) (its : list item) (i : nat) (it : item) :
+  n = length its -> nth_error its i = Some it ->
+  nth_error (saved its (children k n its)) i = Some (i, (it, (match k with KPlain => None | _ => Some i end, it))).
+Proof.
+  intros N H. unfold saved. rewrite number_from_nth.
+  replace (nth_error (combine its (children k n its)) i)
+    with (Some (it, (match k with KPlain => None | _ => Some i end, it))); [reflexivity|].
+  symmetry. apply nth_error_combine. split; [exact H|apply children_nth; assumption].
+Qed.
+
+(* ---------- the fitted model of a with_model sum ---------- *)
+Lemma concat_map_map {B C} (f : B -> C) (l : list (list B)) : concat (map (map f) l) = map f (concat l).
+Proof. induction l as [|a l IH]; simpl; [reflexivity|]. rewrite IH, map_app. reflexivity. Qed.
+
+Theorem models_count (default : list nat) (own : list (list nat)) (its : list item) :
+  prior_count (modify_models default own its)
+  = length (nodup Nat.eq_dec (concat (map (base_model default own) its))).
+Proof.
+  unfold prior_count, modify_models. rewrite <- map_map, concat_map_map.
+  set (L := concat (map (base_model default own) its)).
+  destruct (firsts_spec (map Orig L)) as [Nf If].
+  rewrite (same_elements_length _ (map Orig (nodup Nat.eq_dec L)) Nf).
+  - apply map_length.
+  - apply NoDup_map_inj; [intros x y E; congruence|apply NoDup_nodup].
+  - intro x. rewrite If, !in_map_iff. split; intros (p & E & Hp); exists p; split; auto;
+      [apply nodup_In; exact Hp|apply nodup_In in Hp; exact Hp].
+Qed.
+
+(* free parameters over own models, repaired: analysis i gets its own model with its free priors freed *)
+Theorem free_own_nth (free default : list nat) (own : list (list nat)) (its : list item) (i : nat) (it : item) :
+  nth_error its i = Some it ->
+  nth_error (modify_free_own free default own its) i = Some (map (slot_id free i) (base_model default own it)).
+Proof.
+  intro H. unfold modify_free_own. rewrite nth_error_map, number_from_nth, H. reflexivity.
+Qed.
+
+(* ---------- end to end over expressions (for /repo as it stands) ---------- *)
+Lemma items_of_sum (e : expr) : nofree e = true -> is_leaf e = false ->
+  eval cfg_now e = VComb (spec_kind (leaves e)) (spec_items (spec_kind (leaves e)) (leaves e)).
+Proof. intros N L. rewrite (flatten_now e N). destruct e; simpl in *; try discriminate. rewrite N. reflexivity. Qed.
+
+Section EndToEnd.
+  Context {S : Type}.
+  Variables lik vlik : nat -> S -> res.
+
+  (* every outcome of every history on the sum denoted by ANY bracketing e is the outcome for the
+     analyses of e in the order written, member i reading sub-instance i when e carries models *)
+  Theorem sum_end_to_end (e : expr) (fm : bool) (ops : list (op (X := S * list S))) :
+    nofree e = true -> is_leaf e = false ->
+    Forall2 (out_ok (item_lik lik) (item_lik vlik) (spec_items (spec_kind (leaves e)) (leaves e)))
+            (calls ops)
+            (snd (run (item_lik lik) (item_lik vlik) true fm (items_of (eval cfg_now e)) st_init ops)).
+  Proof. intros N L. rewrite (items_of_sum e N L). simpl items_of. apply history_free_now. Qed.
+
+  Theorem free_end_to_end (e : expr) (fm : bool) (ops : list (op (X := S * list S))) :
+    nofree e = true -> is_leaf e = false ->
+    Forall2 (out_ok (item_lik lik) (item_lik vlik) (spec_items KFree (leaves e)))
+            (calls ops)
+            (snd (run (item_lik lik) (item_lik vlik) true fm (items_of (eval cfg_now (Free e))) st_init ops)).
+  Proof.
+    intros N L. change (eval cfg_now (Free e)) with (with_free (eval cfg_now e)).
+    rewrite (items_of_sum e N L), with_free_spec. simpl items_of. apply history_free_now.
+  Qed.
+
+  (* the value such an outcome carries when nobody raises: sum over the written analyses of their
+     likelihood on their own sub-instance / on the instance itself *)
+  Lemma total_answers {A1 X1 A2 X2} (ev1 : A1 -> X1 -> res) (ev2 : A2 -> X2 -> res) x1 x2 l1 l2 :
+    map (fun a => ev1 a x1) l1 = map (fun a => ev2 a x2) l2 -> total ev1 l1 x1 = total ev2 l2 x2.
+  Proof. intro H. rewrite <- (sum_vals ev1), <- (sum_vals ev2), H. reflexivity. Qed.
+
+  Theorem total_indexed (k : ckind) (l : list (nat * bool)) (w : S) (parts : list S) :
+    k <> KPlain -> length parts = length l ->
+    total (item_lik lik) (spec_items k l) (w, parts)
+    = total (fun (p : nat * S) (_ : unit) => lik (fst p) (snd p)) (combine (map fst l) parts) tt.
+  Proof.
+    intros K L. apply total_answers.
+    assert (E : spec_items k l = reindex_from 0 (plain_items l)) by (destruct k; [contradiction|reflexivity ..]).
+    rewrite E. pose proof (indexed_answers lik w (plain_items l) [] parts) as H. simpl in H.
+    rewrite H by (unfold plain_items; rewrite map_length; exact L).
+    unfold plain_items. rewrite map_map. reflexivity.
+  Qed.
+
+  Theorem total_plain (l : list (nat * bool)) (w : S) (parts : list S) :
+    total (item_lik lik) (spec_items KPlain l) (w, parts) = total (fun (j : nat) (_ : unit) => lik j w) (map fst l) tt.
+  Proof. apply total_answers. simpl. unfold plain_items. rewrite !map_map. reflexivity. Qed.
+End EndToEnd.
+
+(* the fitted model of e.with_free_parameters(free): one copy of the default model per written analysis *)
+Theorem fitted_free_end_to_end (e : expr) (default : list nat) (own : list (list nat)) (free : list nat) :
+  nofree e = true -> is_leaf e = false ->
+  fitted_models cfg_now (kind_of (eval cfg_now (Free e))) (items_of (eval cfg_now (Free e))) default own free
+  = modify_free free (length (leaves e)) default.
+Proof.
+  intros N L. change (eval cfg_now (Free e)) with (with_free (eval cfg_now e)).
+  rewrite (items_of_sum e N L), with_free_spec. simpl. rewrite reindex_length. unfold plain_items. rewrite map_length.
+  reflexivity.
 Qed.
